@@ -1,4 +1,5 @@
 import SlVerif.Proofs.Gf128Reduce
+import SlVerif.Proofs.Gf128Field
 import SlVerif.Proofs.Gf128Bytes
 /-
   C19 — "the 128-bit binary-field product is the GF(2^128) multiplication".
@@ -141,6 +142,63 @@ theorem mulBytes_spec (a b : Bytes) (ha : a.length = 16) (hb : b.length = 16)
   refine ⟨?_, natToLe_length _ _, natToLe_bytes _ _⟩
   rw [leToNat_natToLe, Nat.mod_eq_of_lt h2, h1]
 
+/-! ### GF(2^128) is a FIELD: the modulus is irreducible
+
+    Rabin's test (SlVerif/Proofs/Gf128Field.lean): the kernel evaluates, on the proved model `Gf.mul`,
+    128 modular squarings of `X` (`X^(2^128) ≡ X mod P`) and one product with an inverse certificate
+    (`gcd(X^(2^64) − X, P) = 1`); Mathlib's theory of finite fields does the rest. -/
+
+/-- **`P = X^128 + X^7 + X^2 + X + 1` is irreducible over GF(2)**: `(ZMod 2)[X] / P` is the field GF(2^128) and
+    `Gf.mul` (= `binary_field_multiply_gf_2_128`) is its multiplication on canonical representatives. -/
+theorem P_irreducible : Irreducible P := P_irreducible'
+
+/-- the two computations behind it, as polynomial facts -/
+theorem P_rabin : P ∣ (X : (ZMod 2)[X]) ^ (2 ^ 128) - X ∧ IsCoprime ((X : (ZMod 2)[X]) ^ (2 ^ 64) - X) P :=
+  ⟨P_dvd_X_pow_sub_X, coprime_X_pow_64⟩
+
+set_option maxRecDepth 4000 in
+/-- no zero divisors: the product of 128-bit elements is 0 exactly when a factor is 0 -/
+theorem mul_eq_zero_iff (a b : ℕ) (ha : a < 2 ^ 128) (hb : b < 2 ^ 128) :
+    Gf.mul a b = 0 ↔ a = 0 ∨ b = 0 := by
+  have hzero : ∀ n, n < 2 ^ 128 → P ∣ toPoly n → n = 0 := by
+    intro n hn hdvd
+    apply toPoly_injective
+    rw [toPoly_zero]
+    exact Polynomial.eq_zero_of_dvd_of_degree_lt hdvd (by rw [P_degree]; exact degree_toPoly_lt hn)
+  constructor
+  · intro h0
+    have hm := (mul_spec a b ha hb).1
+    rw [h0, toPoly_zero] at hm
+    have hdvd : P ∣ toPoly a * toPoly b := (Polynomial.modByMonic_eq_zero_iff_dvd P_monic).mp hm.symm
+    rcases P_irreducible.prime.dvd_or_dvd hdvd with h | h
+    · exact Or.inl (hzero a ha h)
+    · exact Or.inr (hzero b hb h)
+  · rintro (rfl | rfl)
+    · apply toPoly_injective
+      rw [(mul_spec 0 b (by norm_num) hb).1, toPoly_zero, zero_mul, Polynomial.zero_modByMonic]
+    · apply toPoly_injective
+      rw [(mul_spec a 0 ha (by norm_num)).1, toPoly_zero, mul_zero, Polynomial.zero_modByMonic]
+
+/-- cancellation: multiplication by a non-zero element is injective -/
+theorem mul_left_cancel (a b c : ℕ) (ha : a < 2 ^ 128) (hb : b < 2 ^ 128) (hc : c < 2 ^ 128) (ha0 : a ≠ 0)
+    (h : Gf.mul a b = Gf.mul a c) : b = c := by
+  have hx : Gf.mul a (b ^^^ c) = 0 := by
+    rw [mul_xor_right a b c ha hb hc, h, Nat.xor_self]
+  rcases (mul_eq_zero_iff a (b ^^^ c) ha (Nat.xor_lt_two_pow hb hc)).mp hx with h0 | h0
+  · exact absurd h0 ha0
+  · exact Nat.xor_eq_zero_iff.mp h0
+
+/-- … hence every non-zero element has an inverse: `b ↦ Gf.mul a b` is a bijection of the 128-bit values -/
+theorem mul_left_bijective (a : ℕ) (ha : a < 2 ^ 128) (ha0 : a ≠ 0) :
+    ∀ y < 2 ^ 128, ∃ b < 2 ^ 128, Gf.mul a b = y := by
+  intro y hy
+  let f : Fin (2 ^ 128) → Fin (2 ^ 128) := fun b => ⟨Gf.mul a b, (mul_spec a b ha b.isLt).2⟩
+  have hinj : Function.Injective f := by
+    intro b c hbc
+    exact Fin.ext (mul_left_cancel a b c ha b.isLt c.isLt ha0 (congrArg Fin.val hbc))
+  obtain ⟨b, hb⟩ := (Finite.injective_iff_surjective.mp hinj) ⟨y, hy⟩
+  exact ⟨b, b.isLt, congrArg Fin.val hb⟩
+
 /-! ### non-vacuity: the statements are about the running model, on concrete operands -/
 
 /-- `x^127 · x = x^128 ≡ x^7 + x^2 + x + 1`: the reduction really happens (0x87). -/
@@ -164,5 +222,10 @@ example : Gf.mulBytes (natToLe 16 (2 ^ 127)) (natToLe 16 2) = natToLe 16 0x87 :=
     (by intro x hx; rcases List.mem_append.mp hx with h | h <;> exact natToLe_bytes _ _ x h),
     leToNat_natToLe, leToNat_natToLe]
   decide +kernel
+
+/-- the field theorems are not vacuous: `X` (= 2) is non-zero, so it has an inverse among the 128-bit values, and the
+    kernel-checked certificate of the Rabin test is a genuine inverse pair of non-trivial elements -/
+example : (∃ b < 2 ^ 128, Gf.mul 2 b = 1) ∧ Gf.mul inv64 (sqIter 64 2 ^^^ 2) = 1 ∧ sqIter 128 2 = 2 :=
+  ⟨mul_left_bijective 2 (by norm_num) (by norm_num) 1 (by norm_num), inv64_check, sqIter_128⟩
 
 end SlVerif.C19
